@@ -6,6 +6,7 @@ package cachekit
 import (
 	"crypto/sha256"
 	"fmt"
+	"io"
 	"os"
 	"path/filepath"
 	"strings"
@@ -106,4 +107,44 @@ func Scratch() string {
 		return d
 	}
 	return os.TempDir()
+}
+
+// HookSrc is a healthy io.ReadSeeker over Data which, in its Pass-th pass (a pass starts with a Seek to the start), hands
+// out the bytes before offset At and then - when asked for the byte at that offset - first lets Fn run, once. It makes
+// "another user of the directory does something while this Put has copied At bytes" a deterministic, replayable event.
+type HookSrc struct {
+	Data  []byte
+	Pass  int
+	At    int
+	Fn    func()
+	Fired bool
+	pass  int
+	off   int
+}
+
+func (s *HookSrc) Seek(off int64, whence int) (int64, error) {
+	if whence != 0 {
+		return 0, fmt.Errorf("HookSrc: only SeekStart")
+	}
+	s.pass++
+	s.off = int(off)
+	return off, nil
+}
+
+func (s *HookSrc) Read(p []byte) (int, error) {
+	end := len(s.Data)
+	if s.pass == s.Pass && !s.Fired {
+		if s.off < s.At && s.At <= len(s.Data) {
+			end = s.At
+		} else if s.off == s.At {
+			s.Fired = true
+			s.Fn()
+		}
+	}
+	if s.off >= len(s.Data) {
+		return 0, io.EOF
+	}
+	n := copy(p, s.Data[s.off:end])
+	s.off += n
+	return n, nil
 }
